@@ -259,6 +259,84 @@ def code_size(it, enum_cls):
     return None
 
 
+def derived_array_tabulation(ctx, report, pb, f):
+    """ParserBinary._parse_parsable_derived_array (with the helper methods it calls) evaluated (sa.miniexec) on windows of up to
+    three two-byte items, each known to the first item class, known to the second only, or known to none, with and without
+    a fallback class, at offset 0 and 2, with bytes after the window: every item of the window is in the result, in wire
+    order, parsed by the first class that accepts it (the fallback for the ones none accepts); without a fallback an unknown
+    item raises. Returns True when evaluated (findings reported), None when the function left the evaluable subset."""
+    import itertools
+    from ..miniexec import Evaluator, Native, NativeError, Obj, Raised, Unsupported, class_call_hook
+
+    class InvalidValue(NativeError):
+        pass
+
+    class Item(Native):
+        def __init__(self, tag, accepts):
+            self.tag, self.accepts = tag, accepts
+
+        def parse_immutable(self, data):
+            data = bytes(data)
+            if len(data) < 2 or (self.accepts is not None and data[0] not in self.accepts):
+                raise InvalidValue()
+            return (self.tag, data[:2]), 2
+
+    class Parser(Native):
+        _repo_class = pb
+
+        def __init__(self, data, offset):
+            self._parsable, self._parsed_length = data, offset
+
+        @property
+        def unparsed_length(self):
+            return len(self._parsable) - self._parsed_length
+    A, B, FB = Item('A', (0x01,)), Item('B', (0x01, 0x02)), Item('fallback', None)
+    wire = {'a': b'\x01\x10', 'b': b'\x02\x20', 'u': b'\x7f\x30'}
+    params = [a.arg for a in f.node.args.args if a.arg != 'self']
+    hook = class_call_hook(pb, None, ctx.model)
+    bad, runs = [], 0
+    try:
+        for n in range(0, 4):
+            for kinds in itertools.product('abu', repeat=n):
+                for classes in ([A], [A, B]):
+                    for fb in (None, FB):
+                        for offset in (0, 2):
+                            runs += 1
+                            window = b''.join(wire[k] for k in kinds)
+                            data = b'\xee' * offset + window + b'\x01\x99'
+                            want = []
+                            for k in kinds:
+                                cls = next((c for c in classes if wire[k][0] in c.accepts), fb)
+                                want.append(None if cls is None else (cls.tag, wire[k]))
+                            me = Parser(data, offset)
+                            env = dict(zip(params, [len(window), list(classes), fb]))
+                            env['self'] = me
+                            try:
+                                got = Evaluator(env, hook, None).function(f.node)
+                            except Raised as e:
+                                if None not in want:
+                                    bad.append(('raise', kinds, 'raises %s although every item is acceptable' % e.what))
+                                continue
+                            if None in want:
+                                bad.append(('accept', kinds, 'an item no class accepts is passed over without an error (no fallback class): %r' % (got,)))
+                                continue
+                            items = [tuple(x) if isinstance(x, (list, tuple)) else x for x in (got[0] if isinstance(got, tuple) else got)]
+                            if [(t, bytes(v)) for t, v in items] != want:
+                                bad.append(('items', kinds, 'the window %r parses to %r, expected %r' % (window, items, want)))
+                            elif isinstance(got, tuple) and got[1] != len(window):
+                                bad.append(('size', kinds, 'the reported size is %r for a window of %d bytes' % (got[1], len(window))))
+    except Unsupported as e:
+        report.undecided.append('C10.R4: _parse_parsable_derived_array left the subset the tabulation understands (%s); decided on its syntax' % e)
+        return None
+    report.count('C10.R4', runs)
+    report.sample({'rule': 'C10.R4', 'derived_array_windows_evaluated': runs})
+    for kind in ('items', 'accept', 'raise', 'size'):
+        hits = [b for b in bad if b[0] == kind]
+        if hits:
+            report.add('C10.R4', f.construct + '@loop[%s]' % kind, '%d of %d evaluated windows: %s' % (len(hits), runs, hits[0][2][:300]))
+    return True
+
+
 def preserve(ctx, report):
     model = ctx.model
     pb = model.cls('ParserBinary')
@@ -268,8 +346,9 @@ def preserve(ctx, report):
         return
     report.touch(f)
     report.count('C10.R4')
-    loops = [n for n in ast.walk(f.node) if isinstance(n, ast.While)]
-    ok = False
+    tab = derived_array_tabulation(ctx, report, pb, f)
+    loops = [n for n in ast.walk(f.node) if isinstance(n, ast.While)] if tab is None else []
+    ok = tab is not None
     for w in loops:
         # every path through the body reaches items.append(item) or a raise
         last = w.body[-1] if w.body else None
